@@ -40,6 +40,9 @@ pub struct C08Case {
 	pub graceful: Option<u16>,
 	/// request the quit in the same action that creates and starts the jobs
 	pub same_action: bool,
+	/// create every job in an action of its own (separate events, the worker may change threads in between)
+	#[serde(default)]
+	pub spread: bool,
 }
 
 const ARMED_GRACE_MS: u64 = 400;
@@ -136,7 +139,7 @@ fn phase_event(k: u32) -> Event {
 pub fn run(c: &C08Case) -> Outcome {
 	let mut o = Outcome::pass();
 	let logs = Logs::new("vh-c08-");
-	let rt = tokio::runtime::Builder::new_multi_thread().worker_threads(2).enable_all().build().unwrap();
+	let rt = tokio::runtime::Builder::new_multi_thread().worker_threads(if c.spread { 4 } else { 2 }).enable_all().build().unwrap();
 	let held: Arc<Mutex<Vec<Job>>> = Arc::new(Mutex::new(Vec::new()));
 	let jobs: Arc<Mutex<Vec<Option<Job>>>> = Arc::new(Mutex::new(vec![None; c.jobs.len()]));
 	let started_expected = c.jobs.iter().filter(|j| j.state % 6 != 0).count();
@@ -156,6 +159,20 @@ pub fn run(c: &C08Case) -> Outcome {
 				Some(g) => action.quit_gracefully(Signal::Terminate, Duration::from_millis(u64::from(g))),
 			};
 			match phase {
+				10..=29 => {
+					// one job per action
+					let i = (phase - 10) as usize;
+					if let Some(s) = specs.get(i) {
+						let (_, job) = action.create_job(cmds[i].clone());
+						if s.state % 6 != 0 {
+							job.start();
+						}
+						if s.hold_clone {
+							held2.lock().unwrap().push(job.clone());
+						}
+						jobs2.lock().unwrap()[i] = Some(job);
+					}
+				}
 				1 => {
 					for (i, s) in specs.iter().enumerate() {
 						let (_, job) = action.create_job(cmds[i].clone());
@@ -202,7 +219,17 @@ pub fn run(c: &C08Case) -> Outcome {
 		});
 		let wx = Watchexec::with_config(config).map_err(|e| e.to_string())?;
 		let mut main = wx.main();
-		wx.send_event(phase_event(1), Priority::Normal).await.map_err(|e| e.to_string())?;
+		let spread = c.spread && !c.same_action;
+		if spread {
+			for i in 0..c.jobs.len() {
+				wx.send_event(phase_event(10 + i as u32), Priority::Normal).await.map_err(|e| e.to_string())?;
+				// let the action run and give the scheduler a chance to move the worker to another thread
+				tokio::time::sleep(Duration::from_millis(3)).await;
+				tokio::task::yield_now().await;
+			}
+		} else {
+			wx.send_event(phase_event(1), Priority::Normal).await.map_err(|e| e.to_string())?;
+		}
 		let t_quit;
 		if same_action {
 			t_quit = Instant::now();
@@ -348,15 +375,26 @@ fn strategy() -> BoxedStrategy<C08Case> {
 		queue_sleep,
 	});
 	let general = (proptest::collection::vec(job, 0..5), proptest::option::weighted(0.6, prop_oneof![Just(0u16), Just(100), Just(400), Just(900)]), proptest::bool::weighted(0.25))
-		.prop_map(|(jobs, graceful, same_action)| C08Case { jobs, graceful, same_action });
+		.prop_map(|(jobs, graceful, same_action)| {
+			let spread = !same_action && jobs.len() % 2 == 0;
+			C08Case { jobs, graceful, same_action, spread }
+		});
 	// several jobs that all need their full grace period: the periods must run concurrently
 	let slow = (proptest::collection::vec((0u8..3, prop_oneof![Just(1u8), Just(3)], prop_oneof![3 => Just(1u8), 1 => Just(3u8)], any::<bool>()), 2..5), prop_oneof![Just(400u16), Just(900)])
 		.prop_map(|(js, g)| C08Case {
 			jobs: js.into_iter().map(|(wrap, cmd, state, hold_clone)| JobSpec { wrap, cmd, state, hold_clone, queue_sleep: 0 }).collect(),
 			graceful: Some(g),
 			same_action: false,
+			spread: g == 900,
 		});
-	prop_oneof![3 => general, 1 => slow].boxed()
+	// many jobs, each created in an action of its own on a 4-worker runtime, clones held elsewhere, graceful quit
+	let many = (proptest::collection::vec((0u8..3, 0u8..2, any::<bool>()), 5..9), prop_oneof![Just(100u16), Just(400)]).prop_map(|(js, g)| C08Case {
+		jobs: js.into_iter().map(|(wrap, cmd, hold_clone)| JobSpec { wrap, cmd, state: 1, hold_clone, queue_sleep: 0 }).collect(),
+		graceful: Some(g),
+		same_action: false,
+		spread: true,
+	});
+	prop_oneof![6 => general, 2 => slow, 1 => many].boxed()
 }
 
 // ------------------------------------------------------------------ e2e: the CLI under SIGINT / SIGTERM
@@ -377,6 +415,9 @@ pub struct E2eCase {
 	/// --debounce in ms (0 = option not given): the quit must not wait for the debounce window
 	#[serde(default)]
 	pub debounce_ms: u16,
+	/// how --stop-timeout is spelled: 0 "300ms", 1 "1" (unit-less: seconds), 2 "1s"
+	#[serde(default)]
+	pub timeout_spelling: u8,
 }
 
 fn run_e2e(c: &E2eCase) -> Outcome {
@@ -387,7 +428,7 @@ fn run_e2e(c: &E2eCase) -> Outcome {
 	cmd.current_dir(logs.dir.path())
 		.env("HOME", logs.dir.path())
 		.arg("--quiet")
-		.arg("--stop-timeout=300ms")
+		.arg(["--stop-timeout=300ms", "--stop-timeout=1", "--stop-timeout=1s"][usize::from(c.timeout_spelling % 3)])
 		.arg(format!("--wrap-process={}", ["group", "session", "none"][(c.wrap % 3) as usize]));
 	if c.debounce_ms > 0 {
 		cmd.arg(format!("--debounce={}ms", c.debounce_ms));
@@ -467,7 +508,15 @@ fn run_e2e(c: &E2eCase) -> Outcome {
 		o.fail("cli-does-not-quit-on-signal", format!("watchexec still running 10 s after {}\ncase {c:?}", if c.sigterm { "SIGTERM" } else { "SIGINT" }));
 		return o;
 	}
-	let bound = if c.ignore { 300 + 2000 } else { 2000 };
+	let stop_timeout_ms: u128 = if c.timeout_spelling % 3 == 0 { 300 } else { 1000 };
+	let bound = if c.ignore { stop_timeout_ms + 2000 } else { 2000 };
+	// a command that ignores the stop signal is only force-killed when the stop timeout is over (a second
+	// interrupt escalates, so only judged for a single signal)
+	if c.ignore && !c.twice && took + 30 < stop_timeout_ms {
+		kill_all(&pids);
+		o.fail("cli-killed-before-stop-timeout", format!("watchexec and its signal-ignoring command were gone {took} ms after the signal, stop timeout {stop_timeout_ms} ms\ncase {c:?}"));
+		return o;
+	}
 	std::thread::sleep(Duration::from_millis(300));
 	let survivors: Vec<_> = pids.iter().filter(|p| alive(p.1)).cloned().collect();
 	kill_all(&pids);
@@ -490,7 +539,7 @@ pub fn check(e: &Engine) {
 		LegOpts::realtime(
 			e.tier.pick(220, 4_000),
 			16,
-			"0-4 jobs (plain / grouped / session; command exits on the signal, ignores it, or forks a group member that ignores / exits) in states never-started, running, finished, running with an armed grace timer (stop or try-restart), deleted; handle clones held outside, queued sleeps; abort or graceful quit (grace 0-900 ms), optionally requested in the same action that created the jobs; non-trivial = >=1 job running at the quit and (armed timer | signal-ignoring command | held clone | quit in the creating action)",
+			"0-4 jobs (plain / grouped / session; command exits on the signal, ignores it, or forks a group member that ignores / exits) in states never-started, running, finished, running with an armed grace timer (stop or try-restart), deleted; handle clones held outside, queued sleeps; abort or graceful quit (grace 0-900 ms), optionally requested in the same action that created the jobs, or with every job created in an action of its own on a 4-worker runtime (up to 8 jobs); non-trivial = >=1 job running at the quit and (armed timer | signal-ignoring command | held clone | quit in the creating action)",
 		),
 		&strategy,
 		&run,
@@ -499,8 +548,8 @@ pub fn check(e: &Engine) {
 	e.require_label("quit", "armed-timer", 0.15);
 	e.explore(
 		"cli-signals",
-		LegOpts::realtime(e.tier.pick(20, 300), 5, "the real CLI supervising a helper, interrupted with SIGINT or SIGTERM: exits within the stop timeout (300 ms) + slack and leaves no process behind; command exits on / ignores the stop signal; wrap group / session / none; --map-signal absent, for an unrelated signal, or for the other one of INT/TERM (mapped to HUP, to itself, or discarded) - the signal that is sent is never the mapped one, so it must still quit; in a third of the cases with --debounce=6s, which the quit must not wait for; in 30% of the cases the signal is sent a second time 120 ms later, which must not delay the exit or leave anything behind"),
-		&|| (any::<bool>(), any::<bool>(), 0u8..3, 0u8..5, proptest::bool::weighted(0.3), prop_oneof![2 => Just(0u16), 1 => Just(6000u16)]).prop_map(|(sigterm, ignore, wrap, map, twice, debounce_ms)| E2eCase { sigterm, ignore, wrap, map, twice, debounce_ms }).boxed(),
+		LegOpts::realtime(e.tier.pick(20, 300), 5, "the real CLI supervising a helper, interrupted with SIGINT or SIGTERM: exits within the stop timeout (spelled 300ms, 1s, or unit-less 1 = one second) + slack, not before it when the command ignores the signal, and leaves no process behind; command exits on / ignores the stop signal; wrap group / session / none; --map-signal absent, for an unrelated signal, or for the other one of INT/TERM (mapped to HUP, to itself, or discarded) - the signal that is sent is never the mapped one, so it must still quit; in a third of the cases with --debounce=6s, which the quit must not wait for; in 30% of the cases the signal is sent a second time 120 ms later, which must not delay the exit or leave anything behind"),
+		&|| (any::<bool>(), any::<bool>(), 0u8..3, 0u8..5, proptest::bool::weighted(0.3), prop_oneof![2 => Just(0u16), 1 => Just(6000u16)], 0u8..3).prop_map(|(sigterm, ignore, wrap, map, twice, debounce_ms, timeout_spelling)| E2eCase { sigterm, ignore, wrap, map, twice, debounce_ms, timeout_spelling }).boxed(),
 		&run_e2e,
 	);
 	let _ = Path::new("");
